@@ -38,7 +38,63 @@ NOTES = ("All checks are static analyses of /repo's current source; see "
 TODO = "check not built yet in this round (static design exists in DESIGN.md)"
 
 
-def fill(add, na):
+# clauses added after the seeding / refactoring rounds (DESIGN.md 8.5, 10)
+EXTRA = {
+    "C01": " Also: integrated-flux formula (R7), every pixel-mask "
+           "segmentation 8-connected (R8), forced / estimated noise and "
+           "background maps over the four combinations (R9), axis roles of "
+           "widths, negated angles, sexagesimal string kinds, scalar index "
+           "axes and pending scale factors at contract sites.",
+    "C02": " Also: the island loop visits all labels with the exact label "
+           "slices, blanks a copy, and passes (row, column) offsets (R8).",
+    "C03": " Also: sign of every value stored into err_* (R11), the island "
+           "number stored is the island's own (R2).",
+    "C04": " Also: each err_* field depends on the stderr of its own "
+           "parameter (R8, dependency analysis), covariance-model contract "
+           "sites (R9), no narrow dtype in fitting.py (R7).",
+    "C05": " Also: refit lower shape bound <= blind-fit lower bound (R7, "
+           "symbolic with counter-example), default regrouping length in "
+           "arcmin (R8).",
+    "C06": " Also: double precision until the final cast (R6), row / column "
+           "axis discipline of the worker (R7), plane addressing of 3-d / "
+           "4-d inputs (R8).",
+    "C07": " Also: row / column axis discipline of the stripe halo and box "
+           "(R7).",
+    "C08": " Also: bypass paths of the set operations only where the "
+           "operation is the identity (R3), the cache is never mutated in "
+           "place (R9), no narrow integer / float dtype (R10), add_pixels "
+           "adds (R11).",
+    "C09": " Also: membership look-up contract of numpy.isin (R6), the "
+           "non-finite mask is exact and taken from values that are still "
+           "non-finite (R3), angular-length vs coordinate kinds.",
+    "C10": " Also: enumeration order of the pixel list vs reshape (R7), "
+           "undefined coordinates never inside (R8), column-name kinds.",
+    "C11": " Also: the tested pixels are exactly the own pixels (R2), the "
+           "flattening sees every stored level (R6).",
+    "C12": " Also: cache aliasing (R6), vertex (lon, lat) order and RA in "
+           "hours at SkyCoord (R4).",
+    "C13": " Also: parity analysis under image -> -image of the detection "
+           "statistic, summit key, summit acceptance (R4) and of the "
+           "catalogue fields (R5).",
+    "C14": " Also: off-image skip guards evaluated over orderings (R4).",
+    "C15": " Also: node arrays not edited after their definition, "
+           "decimation starts at pixel 0 (R3).",
+    "C16": " Also: dependency of each output of the ellipse / vector "
+           "transforms on its own inputs (R5), |cos(defect)| correction in "
+           "both siblings (R7), no narrow dtype (R6).",
+    "C17": " Also: conditioning near zero separation (R6), purity of the "
+           "vectorised primitives (R7), no narrow dtype (R8).",
+    "C18": " Also: exhaustive type dispatch of the sqlite and FITS writers "
+           "(R7), value provenance in the reader (R4).",
+    "C19": " Also: no narrow dtype in the grouping pipeline (R8).",
+    "C20": " Also: plane addressing of cubes with sibling agreement (R5), "
+           "BSCALE applied exactly once (R6).",
+}
+
+
+def fill(add0, na):
+    def add(pid, tech, text, nd, ref):
+        add0(pid, tech, text + EXTRA.get(pid, ""), nd, ref)
     add("C02",
         "role-anchored AST rules + flow-ordered data dependence + constant "
         "folding",
